@@ -236,6 +236,7 @@ static Plan plan_C04(Rng& r, const std::string&) {
 			int a = g.load(A, 0);
 			int k = r.range(1, 3);
 			for (int i = 0; i < k; ++i) g.push(mk(c, "et_sim", {a, long(r.below(2)), long(r.below(100000)), long(r.below(2))}));
+			if (r.chance(1, 5)) g.push(cli_step(r, c, 0, 7, mdl::to_lit(A), ""));      // vata [-s] -o dir=down|up sim
 			if (r.chance(1, 4)) g.push(mk(c, "churn", {long(r.below(100000)), long(r.range(4, 30))}));
 		}
 		progs.push_back(g.out);
